@@ -193,7 +193,7 @@ def siptw_cell(chk, drv, df, cfg, rec):
             m0 = float(ipt.average_treatment_effect.loc['Intercept', 'ATE'])
             m1 = m0 + float(ipt.average_treatment_effect.loc['A', 'ATE'])
         want = m1 if np.all(pi == 1.0) else m0
-        chk.d(close(base, want, rtol=1e-7, atol=1e-9), 'StochasticIPTW with p = %d everywhere = IPTW marginal structural '
+        chk.d(close(base, want, **TOLC), 'StochasticIPTW with p = %d everywhere = IPTW marginal structural '
               'model arm mean (treat-%s)' % (int(pi[0]), 'all' if pi[0] == 1 else 'none'), dict(case, iptw_arm=want))
     cl = None
     if sat:
@@ -470,7 +470,7 @@ def plans_for(df, covs, rng, who):
 
 
 def run(chk, drv, rng, tier):
-    nsat = 3 if tier == 'quick' else 12
+    nsat = 3 if tier == 'quick' else 30
     t = 0
     for i in range(nsat):
         ytype = 'binary' if i % 3 != 2 else 'normal'
@@ -494,7 +494,7 @@ def run(chk, drv, rng, tier):
                            samples=SAMPLES[t % 4], seed=int(rng.integers(1, 10 ** 6)))
                 guard(chk, 'StochasticTMLE', cfg, rec, stmle_cell, drv, df, cfg, rec)
     # non-saturated models on data with a continuous predictor: order-freeness and degenerate plans do not need saturation
-    for i in range(2 if tier == 'quick' else 8):
+    for i in range(2 if tier == 'quick' else 16):
         df = relabel(mixed_dataset(rng), rng, ['shuffled', 'default', 'shifted'][i % 3]).drop(columns=['w'])
         rec = {'frame': gen.frame_record(df), 'n': len(df), 'covs': ['L1', 'L2']}
         covs = ['L1', 'L2']
